@@ -201,7 +201,7 @@ KW_PHASE = {"SWL": "W", "SWCR": "W", "SWU": "W", "SOWCR": "W", "KRW": "W", "KRWR
 @st.composite
 def regions(draw, phases, nreg, hyst=False):
     """nreg region tables.  With hysteresis all regions share connate water, maximum saturations and maximum relperms
-    (the curves of one rock meet at their ends), have no plateaus, and are ordered so that a higher region number
+    (the curves of one rock meet at their ends), mostly have no plateaus, and are ordered so that a higher region number
     has the larger critical non-wetting saturation (imbibition region >= drainage region)."""
     regs = []
     swco = grid100(draw, 0, 3500) if "W" in phases else 0
@@ -210,6 +210,7 @@ def regions(draw, phases, nreg, hyst=False):
     if hyst and "G" in phases:
         sgu = Q - swco if draw(st.integers(0, 9)) < 6 else grid100(draw, 5000, Q - swco)
         krgmax = draw(st.integers(1000, Q))
+    plateau_ok = (not hyst) or draw(st.integers(0, 3)) == 0
     for r in range(nreg):
         if r > 0 and not hyst and draw(st.integers(0, 5)) == 0:
             regs.append(dict(regs[draw(st.integers(0, r - 1))], copied=True))
@@ -220,11 +221,11 @@ def regions(draw, phases, nreg, hyst=False):
         reg = {"copied": False}
         nmin = 5 if draw(st.booleans()) else 3
         if "W" in phases:
-            t = draw(wo_table(swco, kromax, nmin, not hyst))
+            t = draw(wo_table(swco, kromax, nmin, plateau_ok))
             reg.update(sw=t["sw"], krw=t["krw"], krow=t["krow"], pcow=t["pcow"], plateau_w=t["plateau"],
                        pckind_w=t["pckind"])
         if "G" in phases:
-            t = draw(go_table(swco, kromax, sgu, krgmax, nmin, not hyst))
+            t = draw(go_table(swco, kromax, sgu, krgmax, nmin, plateau_ok))
             reg.update(sg=t["sg"], krg=t["krg"], krog=t["krog"], pcog=t["pcog"], plateau_g=t["plateau"],
                        pckind_g=t["pckind"])
         regs.append(reg)
@@ -336,6 +337,7 @@ def case_strategy(draw, tier):
                       else draw(st.integers(1, nreg))})
     case["cells"] = cells
     case["threept"] = False
+    case["family"] = draw(st.sampled_from([1, 1, 2])) if mode in ("identity", "eps") else 1
     if mode == "identity":
         case["threept"] = draw(st.booleans())
         # which keywords are written explicitly with the table's own values (possibly none: bare ENDSCALE)
@@ -408,6 +410,10 @@ def deck_text(case, family=1, endscale=False, arrays=None, hyst=False):
         out.append("STONE1")
     elif case.get("kro3") == "stone2":
         out.append("STONE2")
+    if family == 2:
+        # the SOF2/SOF3 rows added at the break-points of the other table carry interpolated relperms that can be
+        # smaller than the default TOLCRIT (1e-6) next to a critical saturation; keep them mobile as in family I
+        out += ["TOLCRIT", " 1.0E-12 /"]
     if family == 1:
         if "W" in ph:
             out.append("SWOF")
@@ -581,14 +587,14 @@ class C15(Check):
         "two-point saturation scaling the value at the displacing critical saturation is not a table end-point",
         "hysteresis: kr hysteresis only (EHYSTR item 5 = KR), models 0..3; drainage and imbibition curves share "
         "connate, maximum saturation and maximum relperm, critical non-wetting saturation of the imbibition curve "
-        ">= drainage; non-wetting curves strictly monotone in their mobile range (on a plateau Carlson's horizontal "
-        "shift is not unique); saturation histories stay inside the table's saturation range [0, SGU] resp. "
+        ">= drainage; tables with a plateau in the mobile range of the non-wetting curve are generated (1 in 4) but a "
+        "failing Carlson identity on them carries the known-finding key (horizontal shift not unique); saturation histories stay inside the table's saturation range [0, SGU] resp. "
         "[SWL, 1] for the same reason; no end-point scaling in hysteresis runs; WAG hysteresis not generated",
         "continuity at a reversal point is checked through the one-sided limit extrapolated from three probes "
         "1e-7 apart and only where those probes lie on one linear piece",
     ]
-    EXAMPLES = {"quick": 60, "thorough": 1500}
-    MIN_EVALS = {"quick": 500, "thorough": 12000}
+    EXAMPLES = {"quick": 150, "thorough": 1500}
+    MIN_EVALS = {"quick": 1200, "thorough": 12000}
     TIME_CAP = {"quick": 170, "thorough": 1100}
     LEVEL_TEXT = ("Generated-deck search with an independent table model and metamorphic relations: every table row "
                   "and a 201-point saturation grid per curve are compared with a piecewise-linear model of the typed "
@@ -642,12 +648,14 @@ class C15(Check):
                     labels.append("pc:" + r[k])
             if r.get("copied"):
                 labels.append("region-copied")
+        labels.append("family:%s" % ("I+II" if case["mode"] == "unscaled" else "II" if case.get("family") == 2 else "I"))
         labels = sorted(set(labels))
         big = max(rows) >= 5
         if big:
             labels.append("rows>=5")
         nontriv = False
-        sig = [case["mode"], ph, case.get("kro3"), sorted(set(min(r, 6) for r in rows)), len(case["regs"])]
+        sig = [case["mode"], ph, case.get("kro3"), sorted(set(min(r, 6) for r in rows)), len(case["regs"]),
+               case.get("family", 1)]
         mode = case["mode"]
         if mode in ("unscaled", "identity"):
             nontriv = big and distinct
@@ -694,7 +702,7 @@ class C15(Check):
                 "hyst:imb==drain": 0.05, "eps:>5%": 0.1}
 
     def sample_view(self, case):
-        v = {k: case[k] for k in ("mode", "phases", "kro3", "threept") if k in case}
+        v = {k: case[k] for k in ("mode", "phases", "kro3", "threept", "family") if k in case}
         v["given"] = case.get("given")
         v["model"] = case.get("model")
         v["rows"] = [[len(r.get("sw", [])), len(r.get("sg", []))] for r in case["regs"]]
@@ -845,8 +853,9 @@ class C15(Check):
         ph = case["phases"]
         pts = self.cell_points(case, lambda ci: (case["regs"][case["cells"][ci]["satnum"] - 1].get("sw") or [0])[0])
         progs = [[{"op": "eval", "s": [t for (_, _, t) in p]}] for p in pts]
-        rep0 = self.run(ctx.P, deck_text(case, family=1), progs)
-        r = self.check_tables(case, rep0, pts, TOL_TABLE, "no ENDSCALE")
+        fam = case.get("family", 1)
+        rep0 = self.run(ctx.P, deck_text(case, family=fam), progs)
+        r = self.check_tables(case, rep0, pts, TOL_TABLE if fam == 1 else TOL_META, "no ENDSCALE")
         if r:
             return r
         given = [k for k in case["given"]]
@@ -854,7 +863,7 @@ class C15(Check):
             given = [k for k in given if k != "PCW"]       # PCW = 0 would ask for 0/0 (outside the domain)
         if any(ep_of(rg, ph).get("PCG", 1) == 0 for rg in case["regs"]):
             given = [k for k in given if k != "PCG"]
-        rep1 = self.run(ctx.P, deck_text(case, family=1, endscale=True, arrays=self.own_arrays(case, given)), progs)
+        rep1 = self.run(ctx.P, deck_text(case, family=fam, endscale=True, arrays=self.own_arrays(case, given)), progs)
         r = self.compare_reports(case, rep0, rep1, pts, "ENDSCALE with the table's own end-points vs no ENDSCALE")
         if r:
             r["detail"]["given"] = given
@@ -913,7 +922,7 @@ class C15(Check):
         pts = self.cell_points(case, lambda ci: case["cells"][ci]["ep"].get("SWL", 0),
                                lambda ci, corner: extra[(ci, corner)])
         progs = [[{"op": "eval", "s": [tr for (_, _, tr) in p]}] for p in pts]
-        rep = self.run(ctx.P, deck_text(case, family=1, endscale=True, arrays=arrays), progs)
+        rep = self.run(ctx.P, deck_text(case, family=case.get("family", 1), endscale=True, arrays=arrays), progs)
         for ci, c in enumerate(case["cells"]):
             own = ep_of(case["regs"][c["satnum"] - 1], ph)
             m = RegModel(case["regs"][c["satnum"] - 1], ph)
@@ -1012,6 +1021,7 @@ class C15(Check):
                 shy = sn if shy is None else max(shy, sn)
                 st_trip = point(ph, corner, s_of_sn(sn), swco)
                 prog.append({"op": "update", "s": st_trip})
+                prog.append({"op": "hystparams"})
                 sns = sorted(set(grid + [sn, shy]))
                 if ph == "OWG":
                     # keep away from the regularised corner of the three-phase oil model
@@ -1027,8 +1037,7 @@ class C15(Check):
                     probes = [shy - k * DELTA for k in (1, 2, 3)]
                 allsn = sns + probes
                 prog.append({"op": "eval", "s": [point(ph, corner, s_of_sn(x), swco) for x in allsn]})
-                plan.append({"sn": sn, "shy": shy, "grid": sns, "probes": probes})
-            prog.append({"op": "hystparams"})
+                plan.append({"sn": sn, "shy": shy, "grid": sns, "probes": probes, "state": st_trip})
             progs.append(prog)
             plans.append(plan)
         rep = self.run(ctx.P, deck_text(case, family=1, hyst=True), progs)
@@ -1050,12 +1059,21 @@ class C15(Check):
             sc = scales(m, ph)
             reversed_yet = False
             for t, pl in enumerate(plan_ for plan_ in plans[ci]):
-                ev = res[2 * t + 1]["eval"]
+                ev = res[3 * t + 2]["eval"]
                 shy = pl["shy"]
                 info = {"cell": ci, "satnum": c["satnum"], "imbnum": c["imbnum"], "corner": corner, "step": t,
                         "history_Sn": [p["sn"] for p in plans[ci][:t + 1]], "Shy": shy, "model": model}
                 if pl["sn"] < shy:
                     reversed_yet = True
+                # the reversal point on record is the largest non-wetting saturation of the history (as handed to
+                # updateHysteresis): soMax of the oil-water system / sgMax of the gas-oil system
+                hp = res[3 * t + 1]
+                seen = max(p["state"][1 if corner == "w" else 2] for p in plans[ci][:t + 1])
+                rec = hexf(hp["ow"][0]) if corner == "w" else hexf(hp["go"][0])
+                if not (abs(rec - seen) <= 1e-12):
+                    return self.V("hysteresis: recorded reversal saturation (%s) is not the historical maximum of the "
+                                  "non-wetting saturation" % ("soMax" if corner == "w" else "sgMax"),
+                                  dict(info, recorded=rec, historical_max=seen))
                 vals = [obs(v) for v in ev]
                 g = vals[:len(pl["grid"])]
                 pr = vals[len(pl["grid"]):]
@@ -1083,6 +1101,12 @@ class C15(Check):
                         r = self.compare_point("hysteresis: Carlson with identical drainage and imbibition curves "
                                                "changes a result", o, exp, sc, TOL_META, dict(info, Sn=sn))
                         if r:
+                            # signature of a known behaviour: the non-wetting drainage curve has a plateau (two rows
+                            # with the same positive relperm), where the horizontal shift of the imbibition curve
+                            # through the reversal point is not unique and the library picks the plateau's far end
+                            col = reg["krow"] if corner == "w" else reg["krg"]
+                            if r["detail"]["quantity"] == q and any(a == b and a > 0 for a, b in zip(col, col[1:])):
+                                r["key"] = "carlson-identity-plateau-shift"
                             return r
                 if pr:
                     f1, f2, f3 = (o[q] for o in pr)
